@@ -382,6 +382,32 @@ func (eng *Engine) verifyFunc(p *packages.Package, key string) (*FuncVerifier, e
 		}
 		body = rb
 		fv.note("region " + fv.contract.Region + " of " + fkey + " verified in isolation (entry state arbitrary); dropped around it: " + strings.Join(dropped, ", "))
+		// a region that is a function literal is verified against the literal's own signature
+		if nd := findNode(fd.Body, strings.TrimSuffix(fv.contract.Region, "+")); nd != nil {
+			var lit *ast.FuncLit
+			switch x := nd.(type) {
+			case *ast.FuncLit:
+				lit = x
+			case *ast.GoStmt:
+				lit, _ = x.Call.Fun.(*ast.FuncLit)
+			}
+			if lit != nil {
+				if lsig, ok := fv.typeOf(lit).(*types.Signature); ok {
+					fr.sig = lsig
+					fr.results = nil
+					if lit.Type.Results != nil {
+						for _, f := range lit.Type.Results.List {
+							for _, nm := range f.Names {
+								if o, ok := p.TypesInfo.Defs[nm].(*types.Var); ok {
+									fv.declareVar(st, o, eng.sc.zero(o.Type()))
+									fr.results = append(fr.results, o)
+								}
+							}
+						}
+					}
+				}
+			}
+		}
 		if len(rb) > 0 {
 			fv.specPos = rb[len(rb)-1].End()
 			entryPos = rb[0].Pos()
@@ -831,6 +857,10 @@ func findNode(body *ast.BlockStmt, path string) ast.Node {
 				match = kind == "switch"
 			case *ast.IfStmt:
 				match = kind == "if"
+			case *ast.FuncLit:
+				match = kind == "funclit"
+			case *ast.GoStmt:
+				match = kind == "go"
 			}
 			if match {
 				if n == k {
